@@ -286,6 +286,8 @@ BAD_RULES = [
     ('{S} dynamic {m}', 'wrong arity'),
     ('{S} greedy', 'wrong arity'),
     ('{S} static {m}', 'wrong arity'),
+    ('{S} dynamic {m} no_such_sizer', 'dynamic without its size field'),
+    ('{S} limited {scalar} {m}', 'limited on a field that is no fixed array'),
 ]
 
 
@@ -295,7 +297,12 @@ def check_bad_rules(schema, xml, patch, which):
         return None
     s = sts[-1]
     rule, why = BAD_RULES[which % len(BAD_RULES)]
-    line = rule.format(S=s.name, m=s.members[0].name)
+    # a plain scalar member behind the first member (if any), under the name it has once the restoring patch has run
+    scalars = [m.name for m in s.members[1:] if m.kind == PLAIN and not m.is_bytes and m.type in NUMERIC and
+               m.name not in s.sizers()]
+    if '{scalar}' in rule and not scalars:
+        rule, why = BAD_RULES[0]
+    line = rule.format(S=s.name, m=s.members[0].name, scalar=scalars[0] if scalars else '')
     det = {'xml': xml, 'patch': (patch or '') + line + '\n', 'why': why}
     try:
         compile_isar(xml, (patch or '') + line + '\n', 'b')
@@ -329,9 +336,43 @@ def worker(widx, seed, tier, stats):
     runner.run_given(cases(gen_opts()), body, seed, n, stats)
 
 
+def include_scenarios(stats):
+    """Replay tier (a defect repaired in /repo): a rule names a message that lives in an included file which is called
+    like the message.  For the including file the message is absent - the rule is ignored there - and the include
+    itself is no message."""
+    files = {'Header.prophy': 'struct Header\n{\n    u8 a;\n};\n',
+             'main.prophy': '#include "Header.prophy"\nstruct M\n{\n    Header h;\n    u8 b;\n};\n'}
+    for rules, want in (('Header insert 0 zq u16\nHeader rename a a2\n', ['zq', 'a2']),
+                        ('Header type a u64\n', ['a'])):
+        work = pyh.fresh_dir('c17i')
+        try:
+            for fn, text in files.items():
+                with open(os.path.join(work, fn), 'w') as f:
+                    f.write(text)
+            with open(os.path.join(work, 'p.txt'), 'w') as f:
+                f.write(rules)
+            stats.notes['include_scenarios'] += 1
+            det = {'files': files, 'patch': rules}
+            try:
+                pyh.run_prophyc(['--patch', os.path.join(work, 'p.txt'), '--python_out', work,
+                                 os.path.join(work, 'main.prophy'), os.path.join(work, 'Header.prophy')])
+            except Exception as ex:
+                stats.violations.append({'what': "a patch rule for a message of an included file (named like the file) "
+                                         "made the compilation fail: %s: %s" % (type(ex).__name__, str(ex)[:200]),
+                                         'case': {'details': det}})
+                continue
+            main_py = open(os.path.join(work, 'main.py')).read()
+            if 'from .Header import' not in main_py:
+                stats.violations.append({'what': "a patch rule renamed / changed the include of the including file",
+                                         'case': {'details': dict(det, main_py=main_py[:600])}})
+        finally:
+            shutil.rmtree(work, ignore_errors=True)
+
+
 def run(tier, seed):
     t0 = time.time()
     stats = runner.run_workers(__name__, 'worker', seed, tier)
+    include_scenarios(stats)
     return runner.finish(ID, tier, seed, LEVEL, RULE, stats, t0, ASSUME)
 
 
